@@ -47,7 +47,16 @@ fn boundaries(stream: &[u8]) -> Vec<usize> {
 
 /// Execute one schedule.  Returns statistics or a description of the violation.
 pub fn run_schedule(stream: &[u8], ch: &Choices, b: Bounds, max_len: usize) -> Result<Stats, String> {
-    let expect = refframe(stream, max_len);
+    run_schedule_relimit(stream, ch, b, max_len, None)
+}
+
+/// `relimit = Some((q, m2))`: at the q-th quiescent point after a cancellation or a transient error
+/// the caller calls `set_max_len(m2)`.  Documented meaning: length prefixes decoded *after* the call
+/// are judged against m2; a frame whose prefix was already accepted is delivered unchanged.  Needs the
+/// state hook to know whether a frame is in flight.
+pub fn run_schedule_relimit(stream: &[u8], ch: &Choices, b: Bounds, max_len: usize, relimit: Option<(u32, usize)>) -> Result<Stats, String> {
+    let mut expect = refframe(stream, max_len);
+    let mut quiescent = 0u32;
     let bounds = boundaries(stream);
     let src = Src::new(stream.to_vec(), ch.clone(), b);
     // the reader reuses a caller-supplied buffer with stale content (`new` is `with_buffer` of an
@@ -89,7 +98,7 @@ pub fn run_schedule(stream: &[u8], ch: &Choices, b: Bounds, max_len: usize) -> R
             if tag == 0 && off > 4 {
                 return Err(format!("state ReadLen offset {} > 4", off));
             }
-            if tag == 1 && (off > buflen || buflen > ml) {
+            if tag == 1 && (off > buflen || (buflen > ml && relimit.is_none())) {
                 return Err(format!("state ReadVal offset {} / buffer {} / max_len {}", off, buflen, ml));
             }
             let returned_all = matches!(outcome, Some(Ok(Some(_))) | Some(Err(Error::Decode(_))));
@@ -103,6 +112,23 @@ pub fn run_schedule(stream: &[u8], ch: &Choices, b: Bounds, max_len: usize) -> R
                 }
             }
         }
+        #[cfg(have_io_hook)]
+        {
+            let interrupted = matches!(&outcome, None) || matches!(&outcome, Some(Err(Error::Io(e))) if e.to_string() == "transient");
+            if interrupted {
+                quiescent += 1;
+                if let Some((q, m2)) = relimit {
+                    if q == quiescent {
+                        let (tag, _, _, _) = reader.verif_state();
+                        reader.set_max_len(m2 as u32);
+                        // frames already returned and a frame in flight keep their verdict
+                        let switch_at = k + if tag == 1 { 1 } else { 0 };
+                        expect = crate::c14::refframe2(stream, switch_at, max_len, m2);
+                    }
+                }
+            }
+        }
+        let _ = (&mut quiescent, &relimit);
         let r = match outcome {
             None => continue,
             Some(r) => r,
@@ -252,7 +278,9 @@ fn walk(rep: &mut Report, seed: u64, i: u64, rb: Bounds, states: &mut HashSet<(u
     ch.borrow_mut().begin_run();
     rep.eval();
     let max_len = if i % 40 == 7 { 64 * 1024 } else { 8192 };
-    let r = mon::guarded(|| run_schedule(&stream, &ch, rb, max_len));
+    // one walk in three also changes the limit once, at a quiescent point after a cancellation or error
+    let relimit = if i % 3 == 1 { Some((1 + rng.below(4) as u32, *rng.pick(&[0usize, 1, 5, 40, 2000, 8192, 64 * 1024]))) } else { None };
+    let r = mon::guarded(|| run_schedule_relimit(&stream, &ch, rb, max_len, relimit));
     let rp = vec!["c15".into(), "--seed".into(), seed.to_string(), "--replay".into(), "walk".into(), i.to_string()];
     match r {
         Err(p) => rep.violation(&format!("{}|panic", ID), J::obj().with("what", J::s(p.message)).with("stream_len", J::U(stream.len() as u64)), rp),
